@@ -18,13 +18,13 @@ import (
 	"context"
 	"encoding/json"
 	"errors"
-	"reflect"
 	"fmt"
 	"math"
 	"net"
 	"net/http"
 	"net/http/httptest"
 	"net/url"
+	"reflect"
 	"strconv"
 	"strings"
 	"sync"
